@@ -221,7 +221,7 @@ def run(chk):
             (pth, v), = tuple(st[2])
             base = st[1]
             from_lookup = flow.term_contains(base, lambda x: isinstance(x, tuple) and len(x) == 4 and x[0] == "await" and names.is_(x[1], "CredentialStore::find_credentials"))
-            adv = v[0] == "agg" and v[2] == "Some" and flow.term_contains(v, lambda x: x == ("field", ("field", ("field", base, "counter"), "as Some"), "0")) and flow.term_contains(v, lambda x: x == ("const", 1))
+            adv = v[0] == "agg" and v[2] == "Some" and flow.term_contains(v, lambda x: x == ("payload", ("field", base, "counter"))) and flow.term_contains(v, lambda x: x == ("const", 1))
             ok = pth == ("counter",) and from_lookup and adv
             if not adv:
                 wit += " — the counter written is not Some(stored + 1): a failed or cancelled assertion can leave an altered record"
